@@ -338,7 +338,7 @@ def run_kani_group(scratch, crate, cfg, obs, jobs, solver_override=None, extra_t
                     cfgd = m.configs[cfg]
     tdir = scratch.root / f"target-{crate}-{cfg}{tag}"
     timeout = extra_timeout or max(int(o["timeout"]) for o in obs)
-    cmd = ["cargo", "kani", "-p", pkg_name(crate), "-Z", "function-contracts", "--no-assert-contracts", "-Z", "stubbing", "-Z", "unstable-options",
+    cmd = ["cargo", "kani", "-p", pkg_name(crate), "-Z", "function-contracts", "--no-assert-contracts", "--no-assertion-reach-checks", "-Z", "stubbing", "-Z", "unstable-options",
            "--harness-timeout", str(timeout), "-j", str(max(1, jobs)), "--output-format=terse",
            "--target-dir", str(tdir)]
     if cfgd.get("features"):
@@ -403,7 +403,7 @@ def kani_playback(scratch, crate, cfg, ob, allmods):
     rf = cfgd.get("rustflags", "")
     if rf:
         env["RUSTFLAGS"] = (env.get("RUSTFLAGS", "") + " " + rf).strip()
-    cmd = ["cargo", "kani"] + base + ["-Z", "function-contracts", "--no-assert-contracts", "-Z", "stubbing", "-Z", "unstable-options", "-Z", "concrete-playback",
+    cmd = ["cargo", "kani"] + base + ["-Z", "function-contracts", "--no-assert-contracts", "--no-assertion-reach-checks", "-Z", "stubbing", "-Z", "unstable-options", "-Z", "concrete-playback",
            "--concrete-playback=inplace", "--harness-timeout", str(int(ob["timeout"]) * 2), "--harness", ob["name"],
            "--target-dir", str(tdir)]
     if ob.get("solver"):
